@@ -7,6 +7,7 @@ import (
 	"net/url"
 	"strings"
 	"time"
+	"unicode/utf8"
 
 	"github.com/buzzfeed/sso/internal/pkg/sessions"
 	"github.com/buzzfeed/sso/verif/engine/explore"
@@ -46,6 +47,10 @@ var c20Payloads = []struct{ Name, V string }{
 	{"comment-close-bang", `--!><script>alert(1)</script><!--`},
 	// a message that begins with a complete JSON object and goes on (what an identity provider's error
 	// document followed by a remark, or two documents, look like)
+	// percent signs (a body that is passed through a formatting function)
+	{"percent-at-the-end", `quota used: 100%`},
+	{"percent-before-a-quote", `50%"x" and 7%\`},
+	{"percent-verbs", `%s %d %v %q %x %!s(MISSING) %%`},
 	{"attribute-breakout-without-blanks", `"><script>alert(document.domain)</script>`},
 	{"json-object-then-text", `{"error":"access_denied"} (request id 42)`},
 	{"two-json-objects", `{"a":1}{"b":2}`},
@@ -323,6 +328,11 @@ func c20Run(c *fw.Ctx) {
 				viol("malformed-json/"+p.Name+"/"+pl.Name, fmt.Sprintf("the JSON error body does not parse: %v", err))
 			} else {
 				c.Res.Count("positive_json_bodies_checked", 1)
+				// where the benign value comes back inside the JSON's strings, so does this one, unchanged
+				var bv interface{}
+				if json.Unmarshal([]byte(bbody), &bv) == nil && st == bs && utf8.ValidString(pl.V) && jsonStringsContain(bv, c20Benign) && !jsonStringsContain(v, pl.V) {
+					viol("json-message-altered/"+p.Name+"/"+pl.Name, fmt.Sprintf("the JSON error body carries the message in altered form: %s", truncate(body, 200)))
+				}
 			}
 			return
 		}
@@ -350,6 +360,27 @@ func c20Run(c *fw.Ctx) {
 	})
 }
 
+// jsonStringsContain reports whether any string inside the decoded JSON value contains needle.
+func jsonStringsContain(v interface{}, needle string) bool {
+	switch x := v.(type) {
+	case string:
+		return strings.Contains(x, needle)
+	case []interface{}:
+		for _, e := range x {
+			if jsonStringsContain(e, needle) {
+				return true
+			}
+		}
+	case map[string]interface{}:
+		for _, e := range x {
+			if jsonStringsContain(e, needle) {
+				return true
+			}
+		}
+	}
+	return false
+}
+
 func excerpt(body, needle string) string {
 	i := strings.Index(body, needle)
 	if i < 0 {
@@ -373,9 +404,9 @@ func init() {
 	fw.Register(&fw.Check{
 		ID:    "C20",
 		Level: "exploration",
-		Rule: "full product of 24 payloads (also messages that begin with a complete JSON object and go on) (also odd runs of dashes before '>' and '--!>', which close an HTML comment) (text that already looks escaped, long values with markup, thorough: plus each of the 256 byte values inside a benign value and all 400 ordered pairs of 20 metacharacters in front of an event-handler-shaped tail) (URL-bearing text, brace-prefixed text, script element, attribute break-out with double and single quotes, </title> break-out, javascript: URL, entity-encoded markup, UTF-7, overlong UTF-8, NUL, template actions, comment break-out, CR/LF/TAB) x 26 request-controlled positions (also the page that accompanies the proxy's http-to-https redirect: raw query text, query parameter) on the real services (the 14 below plus, for each service's error page, the raw query text and the X-Forwarded-For, User-Agent, Referer and X-Forwarded-Host request headers) " +
+		Rule: "full product of 27 payloads (also percent signs at the end, before a quote, as formatting verbs) (also messages that begin with a complete JSON object and go on) (also odd runs of dashes before '>' and '--!>', which close an HTML comment) (text that already looks escaped, long values with markup, thorough: plus each of the 256 byte values inside a benign value and all 400 ordered pairs of 20 metacharacters in front of an event-handler-shaped tail) (URL-bearing text, brace-prefixed text, script element, attribute break-out with double and single quotes, </title> break-out, javascript: URL, entity-encoded markup, UTF-7, overlong UTF-8, NUL, template actions, comment break-out, CR/LF/TAB) x 26 request-controlled positions (also the page that accompanies the proxy's http-to-https redirect: raw query text, query parameter) on the real services (the 14 below plus, for each service's error page, the raw query text and the X-Forwarded-For, User-Agent, Referer and X-Forwarded-Host request headers) " +
 			"(proxy callback `error`; authenticator callback `error`, sign-in page redirect_uri query / raw path / host label / state and parameter names, sign-out page redirect_uri and session email, sign-in / sign-out page with a javascript:-scheme redirect_uri whose host is in domain, sign_in / start / client_id / redeem error responses) x Accept {none, */*, text/plain, images first, application/json (or XHR) where the position has a JSON rendering, and there also lists naming JSON and HTML in either order, the axios default and a browser's list}; a response without a declared type is taken for what a browser would sniff; " +
-			"oracle: the HTML token structure (element names and attribute names, via golang.org/x/net/html's tokenizer) equals that of the same page rendered with a benign value, no URL attribute carries a script URL, and JSON bodies parse; " +
+			"oracle: the HTML token structure (element names and attribute names, via golang.org/x/net/html's tokenizer) equals that of the same page rendered with a benign value, no URL attribute carries a script URL, and JSON bodies parse and carry the message unaltered wherever they carry the benign one; " +
 			"distinct_nontrivial = distinct (position, payload, json, status, reflected?)",
 		Assumptions:    []string{"a payload that makes the request unparseable for net/http or is refused with another status than the benign value is not compared", "browser parsing is approximated by the x/net/html tokenizer"},
 		QuickBudget:    3 * time.Minute,
